@@ -320,10 +320,31 @@ def _worker(job):
                 "traceback": traceback.format_exc()[-3000:]}
 
 
-def run_jobs(jobs, nproc=None):
+def confirmed_violation(r):
+    """does this result carry a refuted obligation whose counter-model was replayed on the real code?"""
+    for name, o in (r.get("obligations") or {}).items():
+        if o.get("refuted") and (r.get("replays") or {}).get(name, {}).get("confirmed"):
+            return True
+    return False
+
+
+def run_jobs(jobs, nproc=None, fail_fast=False):
+    """fail_fast: stop scheduling once a family member reports a violation confirmed on the real code (the remaining
+    members are not needed for the verdict; on broken code they can take very long)"""
     nproc = nproc or min(16, os.cpu_count() or 4)
     if len(jobs) <= 1 or nproc == 1:
-        return [_worker(j) for j in jobs]
+        out = []
+        for j in jobs:
+            out.append(_worker(j))
+            if fail_fast and confirmed_violation(out[-1]):
+                break
+        return out
     ctx = mp.get_context("fork")
+    out = []
     with ctx.Pool(nproc, maxtasksperchild=8) as pool:
-        return list(pool.imap_unordered(_worker, jobs, chunksize=1))
+        for r in pool.imap_unordered(_worker, jobs, chunksize=1):
+            out.append(r)
+            if fail_fast and confirmed_violation(r):
+                pool.terminate()
+                break
+    return out
